@@ -61,6 +61,11 @@ def graph_family():
     out.append([(A, ["I", RDFNS + "type", None, None], I("T"))])
     out.append([(A, ["I", RDFNS + "type", None, None], I("T")), (A, P, L("x")), (A, Q, Bn)])
     out.append([(A, P, Bn), (A, P, I("c")), (A, Q, Bn), (Bn, P, A)])
+    # rdf:XMLLiteral values in exclusive canonical form (RDF/XML can also spell them as element content: rdf:parseType="Literal")
+    for lex in ('<h:b xmlns:h="http://h/">one</h:b> and <h:i xmlns:h="http://h/">two</h:i>', '<ci xmlns="http://m/">a</ci><ci xmlns="http://m/">b</ci>',
+                '<h:b xmlns:h="http://h/">x<h:i>y</h:i></h:b>', "just text &amp; more",
+                '<h:b xmlns:h="http://h/">1</h:b><k:c xmlns:k="http://k/">2</k:c><h:b xmlns:h="http://h/">3</h:b>'):
+        out.append([(A, P, L(lex, dt=RDFNS + "XMLLiteral")), (A, Q, L("x"))])
     # the same local names in two namespaces (for a prefix that is re-declared half way through a document)
     D = lambda n: ["I", EX + "dir/" + n, None, None]  # noqa: E731
     out.append([(A, P, Bn), (A, D("p"), Bn)])
@@ -410,7 +415,7 @@ def run(ctx):
                            len(gf), len(df), maxdev, {k: len(v[1]) for k, v in SYNTAXES.items()}, len(out_items), n_w3c))
     ctx.sample({"doc": ["turtle", [[list(x) for x in r] for r in sorted(rows_of(gf[13]), key=repr)], ["long-quote"]], "document": render("turtle", {r + (None,) for r in rows_of(gf[13])}, frozenset(["long-quote"]))})
     ctx.assumptions += ["the writers are the author's reading of the W3C grammars; their plain spellings are cross-checked (N-Triples by the strict reader, XML by expat, JSON by json)",
-                        "rdf:parseType=Literal, remote JSON-LD contexts and N3-only syntax are not generated"]
+                        "remote JSON-LD contexts and N3-only syntax are not generated; rdf:parseType=Literal only for five hand-written canonical XML fragments"]
 
 
 def replay(ctx, case):
